@@ -114,6 +114,9 @@ func runC04(c *Ctx) {
 				continue
 			}
 			rt := tb.T(returnValues(ret)[0]).String()
+			if bv, ok := p.EvalBool(returnValues(ret)[0]); ok {
+				rt = map[bool]string{true: "c[true]", false: "c[false]"}[bv]
+			}
 			found := p.CondHeld(tb, "ext[1]("+updPat+")", nil) == 1
 			sent := p.SelectTaken(sel, 0)
 			var exitPrev, other int
